@@ -2,7 +2,7 @@
 from vf.driver import contract_units
 
 LEVEL = "proof"
-MODULES = ["contracts.c_utils", "contracts.c_primitives", "contracts.c_factories"]
+MODULES = ["contracts.c_utils", "contracts.c_primitives", "contracts.c_factories", "contracts.c_enums"]
 EXPLANATION = ("Contracts on the real primitive codecs are discharged by pyvc (AST -> SMT) for all "
                "values; structure classes are covered by ttlvsym (parametric in leaf values).")
 
